@@ -20,6 +20,7 @@ RULE = (
     "(zero times if memoized beforehand); the final store (set of (function, arg hash), result types, stored values / exception records) equals the twin's. "
     "Non-trivial = batch with a duplicate or a failure and a partly memoized subset; distinct by (element kinds sequence, subset, mode)."
     " Race family (round 5): call_batch([memoized, new]) in one thread while another thread forgets the memoized element, every one-preemption schedule (every 3rd yield point in quick) under C09's deterministic scheduler; oracle: nobody raises or hangs, the batch returns both values, a later batch returns them again."
+    " Round 6: individual calls optionally made through the batch's own partial prefix with the element given positionally; after the comparison every call is forgotten at once while the first batch's results are held, and a second batch must run every distinct memoizable element exactly once and leave the same store; arrays larger than the memory cache among the elements."
 )
 ASSUMPTIONS = [
     "local runner (the only runner in the repository that executes)",
